@@ -170,6 +170,12 @@ def corpus_cases():
         ("ValueDataType", "in_", [[int, str]], {}, [1, True, 1.0, "1"]),
         ("Value", "is_instance", [int, "a"], {}, [1, "s"]),
         ("Value", "is_instance", [bool], {}, [1, True, 1.0, 0, False]),
+        # isinstance takes nested tuples of types; the empty tuple matches nothing; scanned left to right
+        ("ValueLength", "is_instance", [(), int], {}, {"k2": "1", 10: 0, "k1": {None: 2.5}}),
+        ("Value", "is_instance", [(str, (float, ()))], {}, [1, "s", 2.5, None, True]),
+        ("Value", "is_instance", [(int, (5,)), str], {}, [1, "s", 2.5]),
+        ("Value", "is_instance", [((), ())], {}, [1, "s"]),
+        ("Value", "keys_is_instance", [(), (str, (int,))], {}, [{"a": 1, 2: 3}, {2.5: 1}, {}, 5]),
         ("Value", "is_instance", [int], {}, [True, 1, 1.0, False, 0.0, 0]),
         ("Value", "is_instance", [float], {}, {"a": 1, "b": 1.0, "c": True}),
         ("ValueDataType", "equal_to", [float], {}, [1, 1.0, True]),
